@@ -1682,6 +1682,9 @@ class PyCdlib:
         if self.enhanced_vd is not None:
             loc = self.pvd.root_directory_record().extent_location()
             self.enhanced_vd.root_directory_record().set_data_location(loc, loc)
+            # The Enhanced Volume Descriptor describes the same root directory
+            # as the PVD, so it has to follow its length as well.
+            self.enhanced_vd.root_directory_record().set_data_length(self.pvd.root_directory_record().get_data_length())
 
         if self.udf_anchors:
             self.udf_anchors[-1].set_extent_location(current_extent,
